@@ -77,7 +77,7 @@ CHECKS["C13"] = dict(parts=[part("clean-termination", "gw", "TestC13", 3000, 150
 CHECKS["C14"] = dict(parts=[part("will-cancelled-only-by-disconnect", "gw", "TestC14", 3000, 150_000)])
 CHECKS["C23"] = dict(parts=[part("gateway-datagrams-wellformed", "gw", "TestC23GW", 3000, 150_000),
                             part("client-datagrams-wellformed", "cl", "TestC23Client", 1000, 100_000)])
-CHECKS["C24"] = dict(parts=[part("mqtt-valid", "gw", "TestC24", 4000, 250_000)])
+CHECKS["C24"] = dict(parts=[part("mqtt-valid", "gw", "TestC24", 4000, 250_000), part("slow-broker-stream", "gw", "TestC24Slow", 2000, 120_000)])
 META.update({
     "C13": dict(
         text="Exploration: generated session prefixes (fresh, mid-connect, active with pending exchanges, asleep with/without pinger, awake, reconnected) crossed with every termination cause at drawn offsets around the poll interval; oracle: run returns within 100 ms + 1 ms of the cause on the virtual clock, the broker connection is closed, the client gets the expected number of DISCONNECTs, and a goroutine census right after the end finds no frame of the code under test. A second part runs sessions against a refusing broker address on real loopback sockets (dial failure). Prefixes include a broker that has stopped reading with a write to it pending (in-memory link with a write stall honouring write deadlines), sleep durations with a zero low or high byte, a client announcing a new sleep duration while asleep, and a client which is unreachable when the cause arrives (every write to it fails).",
